@@ -250,7 +250,8 @@ theorem C06_include_result_is_stream (ctx : PCtx) (fuel : Nat) (fI : Flags) (nam
 theorem C06_stream_premerge (fuel : Nat) (sf : Flags) (cs : List (Key × Node)) (path : Path) (into : Option Node) :
     premergeF (fuel + 1) (.comp sf .stream cs) path into =
       match flattenWith (premergeF fuel) (cs.map (·.2)) with
-      | .error e => .error e
+      | .error .unsupported => .error .unsupported
+      | .error _ => .error .premerge     -- whatever is raised while the nested stream flattens surfaces as PremergeError
       | .ok r =>
         match premergeF fuel r path into with
         | .error e => .error e
